@@ -4,6 +4,7 @@ from pyvc.values import UFun
 from pyvc.types import PT
 
 M = "superrec2.utils.dynamic_programming"
+REQUIRES = ["subsequences"]
 
 # "tagged" = truthy info (that is what the code tests)
 RHS_ALL = """((t in old(self._infos) and old(self._value) == self._value)
@@ -52,9 +53,10 @@ def setup(E):
         defaults={"merge_policy": None, "retention_policy": None},
         ensures=[
             "self._value == value",
-            "forall(lambda t: (t in self._infos) == exists(lambda i: 0 <= i and i < len(infos) and infos[i] == t, Int), Tag)",
+            "forall(lambda t: (t in self._infos) == (t in infos), Tag)",
             "self._merge_policy == (MergePolicy.MIN if merge_policy is None else the(merge_policy))",
             "self._retention_policy == (RetentionPolicy.NONE if retention_policy is None else the(retention_policy))",
+            Clause("self._infos is not infos__now", name="owns-its-tag-set", native_only=True),
         ],
         modifies=["self.*"], globals=G, props=["C16"],
     ))
@@ -230,6 +232,12 @@ def _more_scopes(E):
         cands = [(v, t) for v in (0, 1, 2) for t in (None, "a", "b")]
         n = 2 if tier != "thorough" else 3
         combs = ["add", "mul-tag", "drop-left", "left-only-tagged"]
+        for merge in ("MIN", "MAX"):  # operands whose optimum is infinite but tagged
+            for ret in ("ANY", "ALL"):
+                for v1 in ("inf", "-inf", 1):
+                    for v2 in ("inf", "-inf", 2):
+                        for comb in ("drop-left", "min-value"):
+                            yield {"merge": merge, "ret": ret, "h1": [[[v1, "a"], [v1, "b"]]], "h2": [[[v2, "b"]]], "comb": comb}
         for merge in ("MIN", "MAX"):
             for ret in ("NONE", "ANY", "ALL"):
                 for h1 in itertools.product(cands if tier == "thorough" else cands[1::2] + cands[:1], repeat=n):
@@ -243,6 +251,7 @@ def _more_scopes(E):
             "add": lambda l, r: C(l.value + r.value, (l.info, r.info)),
             "mul-tag": lambda l, r: C(l.value * 2 + r.value, l.info + r.info),
             "drop-left": lambda l, r: C(r.value, r.info),
+            "min-value": lambda l, r: C(min(l.value, r.value), (l.info, r.info)),
             "left-only-tagged": lambda l, r: C(l.value - r.value, (l.info,) if l.info == "a" else None),
         }
 
@@ -269,6 +278,33 @@ def _more_scopes(E):
         mod = native.import_real(M, src_root)
         e = H["mk_entry"](mod, recipe["merge"], recipe["ret"], recipe["history"])
         return (lambda self: list(iter(self))), {"self": e}, H["universe"]()
+
+    def gen_init_values(tier, rng):
+        for shape in ("list", "set", "tuple", "entry-infos"):
+            for tags in ([], ["a"], ["a", "b"]):
+                for mp in (None, "MIN", "MAX"):
+                    for rp in (None, "NONE", "ANY", "ALL"):
+                        if rp == "ANY" and len(tags) > 1:
+                            continue
+                        yield {"shape": shape, "tags": tags, "value": 3, "merge": mp, "ret": rp}
+
+    def build_init_values(recipe, src_root):
+        mod = native.import_real(M, src_root)
+        tags = recipe["tags"]
+        if recipe["shape"] == "entry-infos":
+            src = mod.Entry(mod.MergePolicy.MIN, mod.RetentionPolicy.ALL)
+            src.update(*[mod.Candidate(3, t) for t in tags])
+            infos = src.infos()
+        else:
+            infos = {"list": list, "set": set, "tuple": tuple}[recipe["shape"]](tags)
+        obj = object.__new__(mod.Entry)
+        mp = getattr(mod.MergePolicy, recipe["merge"]) if recipe["merge"] else None
+        rp = getattr(mod.RetentionPolicy, recipe["ret"]) if recipe["ret"] else None
+        return (lambda self, value, infos, merge_policy, retention_policy: mod.Entry.__init__(self, value, infos, merge_policy, retention_policy)), \
+            {"self": obj, "value": recipe["value"], "infos": infos, "merge_policy": mp, "retention_policy": rp}, H["universe"](ints=range(-1, 4))
+
+    E.registry.scopes[f"{M}:Entry.__init__@values"] = Scope(gen_init_values, build_init_values,
+        describe="explicit value + tags given as list / set / tuple / another entry's live tag set, all policy arguments")
 
     E.registry.scopes[f"{M}:Entry.__iter__"] = Scope(gen_iter, build_iter, describe="entries after all histories of length 3 over {0,1} x {None,a,b,c}")
 
@@ -313,6 +349,7 @@ def _more_scopes(E):
         worst = inf if merge == "MIN" else -inf
         table = mod.Table([mod.DictDimension()] * rank, mp, rp)
         model = {}
+        kept = {}  # proxies obtained earlier and kept by the caller
 
         def cell(key):
             x = table
@@ -347,8 +384,8 @@ def _more_scopes(E):
                 need = {k[0] for k in model}
                 if not need <= ks:
                     return f"keys() misses written first-level keys {need - ks}"
-            for k2 in list(model) + [key]:
-                c = cell(k2)
+            kept.setdefault(key, cell(key))
+            for k2, c in [(k, cell(k)) for k in list(model) + [key]] + list(kept.items()):
                 exp = model.get(k2)
                 ev, ei = (exp.value(), set(exp.infos())) if exp is not None else (worst, set())
                 if c.value() != ev or set(c.infos()) != ei or c.is_infinite() != infinity.is_infinite(ev) or len(c) != len(ei) or {x.info for x in c} != ei:
